@@ -711,6 +711,9 @@ func (l *Lexer) errorf(msg string, param ...interface{}) *Error {
 }
 
 func (l *Lexer) errorfAtPosition(pos, end token.Pos, msg string, param ...interface{}) *Error {
+	if int(end) > len(l.Buffer) {
+		end = token.Pos(len(l.Buffer))
+	}
 	return &Error{
 		Message:  fmt.Sprintf(msg, param...),
 		Position: l.Position(pos, end),
